@@ -94,7 +94,16 @@ def build(kind, par):
         pc = pym.solvers.ILU() if kind == "cg-ilu" else pym.solvers.GeometricMultigrid(d)
         su = net.append(pym.LinSolve([sK, sfv], solver=pym.solvers.CG(preconditioner=pc, tol=1e-10)))
         sc = net.append(pym.EinSum([su, sfv], expression="i,i->"))
-        return net, [sx], [sc, su], 1e-6, gen
+
+        def gen_cg(rng):
+            # the load is an input too and changes by orders of magnitude (the previous solution is the iterative solver's initial
+            # guess: the accuracy of the new one must not depend on how far away it starts)
+            g = np.zeros(ndof)
+            g[-1] = 10.0 ** rng.uniform(-2.5, 2.5)     # (a ratio beyond ~1e6 makes the requested accuracy unattainable from the
+            # old solution as starting point in floating point - not a defect of the solver)
+            g[-2] = -0.3 * g[-1] * rng.uniform(0, 1)
+            return [rng.uniform(0.2, 1.0, d.nel), g]
+        return net, [sx, sfv], [sc, su], 1e-6, gen_cg
     if kind == "dynamic":
         # complex dynamic stiffness  K(1+0.05i) - w^2 M
         sK = net.append(pym.AssembleStiffness(sx, domain=d, bc=bc))
